@@ -208,6 +208,23 @@ def impl_call(k):
         return "obscure"
 
 
+def impl_call_after_valid(k):
+    """the same call as the SECOND call on a Shaper whose first call was valid: the call-time checks
+    must not depend on cached state"""
+    from shexer.shaper import Shaper
+    (so, of, fmt, n, d, t) = k
+    sh = Shaper(raw_graph=_FILES["nt"][1], all_classes_mode=True)
+    sh.shex_graph(string_output=True)
+    try:
+        sh.shex_graph(string_output=so, output_file=os.path.join(D, "out_%d.txt" % os.getpid()) if of else None,
+                      output_format=fmt, acceptance_threshold=t)
+        return "accept"
+    except ValueError:
+        return "ValueError"
+    except BaseException:  # noqa
+        return "obscure"
+
+
 def spec_call(k):
     (so, of, fmt, n, d, t) = k
     return (so or of) and fmt in ("ShEx", "Shacl") and 0 <= n <= d
@@ -264,7 +281,13 @@ def run(tier, seed, replay=None):
     if bs.model_ok and ccs:
         b = lambda x: "1" if x else "0"
         cmodel = [r[0] for r in mb.call("c20_call", [[b(k[0]), b(k[1]), "0", k[2], str(k[3]), str(k[4])] for k in ccs])]
+    cimpl2 = [impl_call_after_valid(k) for k in ccs]
     call_spec_fail = [i for i, k in enumerate(ccs) if cimpl[i] != ("accept" if spec_call(k) else "ValueError")]
+    call2_spec_fail = [i for i, k in enumerate(ccs) if cimpl2[i] != ("accept" if spec_call(k) else "ValueError")]
+    for i in call2_spec_fail[:5]:
+        run.violation("shex_graph call-time check, as second call on a Shaper, disagrees with the reference predicate",
+                      {"call": ccs[i], "history": "shex_graph(string_output=True) then this call", "impl": cimpl2[i],
+                       "spec_valid": spec_call(ccs[i])})
     call_corr_fail = [i for i in range(len(ccs)) if cmodel is not None and cmodel[i] != cimpl[i]]
 
     # cross-check a sample of the binary's answers by vm_compute
@@ -298,7 +321,7 @@ def run(tier, seed, replay=None):
     for i in call_spec_fail[:5]:
         run.violation("shex_graph call-time check disagrees with the reference predicate",
                       {"call": ccs[i], "impl": cimpl[i], "spec_valid": spec_call(ccs[i])})
-    if not spec_fail and not call_spec_fail:
+    if not spec_fail and not call_spec_fail and not call2_spec_fail:
         if corr_fail or call_corr_fail:
             i = corr_fail[0] if corr_fail else None
             run.violation("correspondence Model.Config.ctor/call vs shexer.shaper no longer checks",
@@ -316,7 +339,7 @@ def run(tier, seed, replay=None):
                           failing_input=False)
 
     run.coverage.update({
-        "evaluations": len(cfgs) + len(ccs),
+        "evaluations": len(cfgs) + 2 * len(ccs),
         "distinct_nontrivial": nontrivial + len(ccs),
         "rule": "constructor: every presence pattern of 7 sources x 4 targets x all_classes_mode (8192) with default "
                 "enums; every single source x target pattern x {8 formats x 5 compressions x 5 examples modes x 4 "
